@@ -58,7 +58,9 @@ def strategy(shard):
         aux = None
         if draw(st.integers(0, 2)) == 0:
             mark = st.sampled_from([None, None, {"X": 1}, {"Y": True}, {"X": 1, "Y": 1}, {"X": 1, "Y": 1, "Z": 1}, {}])
-            aux = {"first": draw(st.booleans()), "n_winners": draw(st.sampled_from([1, 1, 2])), "ballots": [draw(mark) for _ in range(n)]}
+            aux = {"first": draw(st.booleans()), "n_winners": draw(st.sampled_from([1, 1, 2])), "ballots": [draw(mark) for _ in range(n)],
+                   # ... which may be one that Contest.tally does not tabulate at all (a ranked contest)
+                   "irv": draw(st.sampled_from([False, False, True]))}
         return {"kind": kind, "cands": cands, "winners": winners, "f": f, "ballots": ballots, "aux": aux,
                 # what the records are called is nobody's business in a tally: unnamed records, or all under one default name
                 "ids": draw(st.sampled_from(["unique", "unique", "unique", "none", "same"]))}
@@ -80,8 +82,9 @@ def build(case, use_style):
         d["share_to_win"] = float(Fraction(case["f"]))
     aux = case.get("aux")
     if aux:
-        da = {"name": "aux", "risk_limit": 0.05, "cards": max(1, len(case["ballots"])), "choice_function": "PLURALITY",
-              "n_winners": aux["n_winners"], "candidates": ["X", "Y", "Z"], "winner": ["X", "Y"][: aux["n_winners"]],
+        irv = bool(aux.get("irv"))
+        da = {"name": "aux", "risk_limit": 0.05, "cards": max(1, len(case["ballots"])), "choice_function": "IRV" if irv else "PLURALITY",
+              "n_winners": 1 if irv else aux["n_winners"], "candidates": ["X", "Y", "Z"], "winner": ["X"] if irv else ["X", "Y"][: aux["n_winners"]],
               "audit_type": Audit.AUDIT_TYPE.POLLING, "test": NonnegMean.alpha_mart, "estim": NonnegMean.shrink_trunc,
               "use_style": use_style, "test_kwargs": {}}
         contests = Contest.from_dict_of_dicts({"aux": da, "con": d} if aux["first"] else {"con": d, "aux": da})
@@ -104,7 +107,7 @@ def build(case, use_style):
         if losers != keep:
             raise AssertionError(f"make_supermajority_assertion altered the caller's loser list: {losers} (was {keep})")
     else:
-        Assertion.make_all_assertions(contests)
+        Assertion.make_all_assertions({"con": con})   # (the second contest on the cards needs no assertions here)
     cvrs = []
     for i, b in enumerate(case["ballots"]):
         votes = {} if b is None else {"con": dict(b)}
@@ -176,6 +179,16 @@ def evaluate(case, out):
                         out.lib_exception("tally-margin", e)
                         return
                     out.expect(abs(m - (2 * mean - 1)) <= 1e-9, "tally-margin-vs-mean", lambda: (key, use_style, m, 2 * mean - 1))
+            if pop:
+                # the rule-enforcing tally (the default): cards with more marks than seats count for nobody, all others as above
+                try:
+                    Contest.tally(contests, cvrs)
+                except Exception as e:  # noqa
+                    out.lib_exception("tally(enforce_rules)", e)
+                    return
+                ref = {c: sum(1 for b, m in zip(have, nmarks) if m <= len(winners) and sa.truthy(b.get(c, False))) for c in cands}
+                got_t = {c: int(con.tally.get(c, 0)) for c in cands}
+                out.expect(got_t == ref, "rule-enforcing-tally!=reference", lambda: (use_style, got_t, ref, len(winners)))
             won = all(tally[w] > tally[l] for w in winners for l in losers)
             if pop:
                 out.expect(all_gt == won, "conjunction-vs-social-choice", lambda: (use_style, tally, winners))
